@@ -1,0 +1,38 @@
+//go:build verif
+
+// Contracts for govc (contract-based deductive verification, see /verif/DESIGN.md).
+// Comment-only file: it contains no code and is compiled only under the verif tag.
+
+package tools
+
+// ---------------------------------------------------------------- quorum-loss repair: the rewritten snapshot record (C20)
+
+//@ extern github.com/lni/vfs (fs FS) PathJoin
+//@ extern github.com/lni/vfs (fs FS) PathBase
+
+// the rewritten membership is exactly the given member list; every previous member (voter,
+// non-voting or witness) that is not listed is recorded as removed, previous removals are kept
+//@ func getProcessedSnapshotRecord [C20]
+//@ requires members != nil
+//@ modifies allof(pb.SnapshotFile.Filepath)
+//@ ensures result.Imported && result.Index == old.Index && result.Term == old.Term && result.Type == old.Type && result.Membership.ConfigChangeId == old.Index
+//@ ensures forall k uint64 :: (k in result.Membership.Addresses) == (k in members)
+//@ ensures forall k uint64 :: k in members ==> result.Membership.Addresses[k] == members[k]
+//@ ensures len(result.Membership.NonVotings) == 0 && len(result.Membership.Witnesses) == 0
+//@ ensures forall k uint64 :: (k in result.Membership.Removed) == ((k in old.Membership.Removed) ||
+//@    ((k in old.Membership.Addresses || k in old.Membership.NonVotings || k in old.Membership.Witnesses) && !(k in members)))
+//@ loop 2 modifies entries(ss.Membership.Removed)
+//@ loop 2 invariant forall k uint64 :: (k in ss.Membership.Removed) == (visited(k) && !(k in members))
+//@ loop 2 invariant forall k int :: visited(k) ==> k in old.Membership.Addresses
+//@ loop 3 modifies entries(ss.Membership.Removed)
+//@ loop 3 invariant forall k uint64 :: (k in ss.Membership.Removed) == (((k in old.Membership.Addresses) || visited(k)) && !(k in members))
+//@ loop 3 invariant forall k int :: visited(k) ==> k in old.Membership.NonVotings
+//@ loop 4 modifies entries(ss.Membership.Removed)
+//@ loop 4 invariant forall k uint64 :: (k in ss.Membership.Removed) == (((k in old.Membership.Addresses) || (k in old.Membership.NonVotings) || visited(k)) && !(k in members))
+//@ loop 4 invariant forall k int :: visited(k) ==> k in old.Membership.Witnesses
+//@ loop 5 modifies entries(ss.Membership.Removed)
+//@ loop 5 invariant forall k uint64 :: (k in ss.Membership.Removed) == (((k in old.Membership.Addresses || k in old.Membership.NonVotings || k in old.Membership.Witnesses) && !(k in members)) || visited(k))
+//@ loop 5 invariant forall k int :: visited(k) ==> k in old.Membership.Removed
+//@ loop 6 modifies entries(ss.Membership.Addresses)
+//@ loop 6 invariant forall k uint64 :: (k in ss.Membership.Addresses) == visited(k)
+//@ loop 6 invariant forall k uint64 :: visited(k) ==> k in members && ss.Membership.Addresses[k] == members[k]
